@@ -68,7 +68,10 @@ TAPE_SPEC = Spec(
     maybe_self_methods=frozenset({"map_to_standard_wires", "expand"}),
     mutating_methods=frozenset({"_update", "_update_par_info", "_update_trainable_params", "set_parameters", "set_trainable_params"}),
     root_cache_attrs=frozenset({"_graph", "_specs", "_batch_size", "_obs_sharing_wires", "_obs_sharing_wires_id", "_output_dim", "_qfunc_output"}),
-    elem_cache_attrs=frozenset({"_batch_size", "_ndim_params", "_pauli_rep_cache"}),
+    # lazily computed caches / capture bookkeeping of operators: not part of the circuit's observable content
+    # (_grouping_indices: LinearCombination.compute_grouping fills it on demand, the hash ignores it — probed;
+    #  tracer: written by pop_op_eqns only while program capture is enabled)
+    elem_cache_attrs=frozenset({"_batch_size", "_ndim_params", "_pauli_rep_cache", "_grouping_indices", "tracer"}),
     root_classes=frozenset({"QuantumScript", "QuantumTape", "OperationRecorder"}),
     elem_mutating_methods=frozenset(),
 )
@@ -130,10 +133,13 @@ def _container_of(elem_tags):
 
 
 class Engine:
-    def __init__(self, ix, spec: Spec = TAPE_SPEC, max_depth=3):
+    def __init__(self, ix, spec: Spec = TAPE_SPEC, max_depth=3, dispatch_bases=()):
         self.ix = ix
         self.spec = spec
         self.max_depth = max_depth
+        # names of base classes whose subclasses' methods are candidates for `elem.method(...)` calls (thorough tier)
+        self.dispatch_bases = tuple(dispatch_bases)
+        self._dispatch_cache = {}
         self._summaries = {}
         self._in_progress = set()
         self.stats = {"functions_analysed": 0, "summaries": 0, "depth_cuts": 0, "calls_resolved": 0, "calls_unresolved": 0}
@@ -148,6 +154,19 @@ class Engine:
         self.functions_seen.add(f.fq)
         run.exec_function(f.node, env)
         return run.result
+
+    def dispatch_candidates(self, method_name):
+        """all definitions of ``method_name`` in classes deriving from the dispatch bases"""
+        if not self.dispatch_bases:
+            return []
+        if method_name not in self._dispatch_cache:
+            out = []
+            for c in self.ix.classes:
+                f = c.own_method(method_name)
+                if f is not None and any(b.name in self.dispatch_bases for b in c.mro()):
+                    out.append(f)
+            self._dispatch_cache[method_name] = out
+        return self._dispatch_cache[method_name]
 
     def summary(self, g: FuncInfo, param: str, tag: str, depth, chain):
         key = (g.fq, g.node.lineno, param, tag)
@@ -666,6 +685,16 @@ class _Run:
                         out |= _elem_of(rt)
                 if CT in rt and m == "copy":
                     out.add(CT)
+                if E in rt and self.eng.dispatch_bases and not m.startswith("__"):
+                    # dynamic dispatch resolved by method name over the operator hierarchy: does any body write to self?
+                    for g in self.eng.dispatch_candidates(m):
+                        a_ = g.node.args.args
+                        if not a_ or a_[0].arg != "self" or _is_static(g):
+                            continue
+                        res = self.eng.summary(g, "self", E, self.depth, self.chain)
+                        for s_ in res.sinks:
+                            self.sink(c, "via-dispatch", f"calls `.{m}()` on an operator owned by the input {sp.name}; the implementation "
+                                      f"{g.qualname} ({g.module.relpath}:{s_.line}) {s_.why.replace('owned by the input ' + sp.name, 'that is self')}")
                 if I in rt and m in ("get", "pop", "values", "items", "copy", "setdefault"):
                     out |= {E, FL} if m != "copy" else {FL}
                 # a method of the root's own class: summarise through `self`
